@@ -10,7 +10,7 @@ FRAGMENTS = [
     "#c", "`", "g`*`", "@a`b`", "p'", "pf'", "pr\"", "&&", "||", ">&", "|", "&", ";", ":", ",", ".", "...", "=", "==", ":=", "->", "**", "@",
     "if ", "else", "def f(", "class ", "lambda ", "for x in ", "match x:\n case ", "import ", "from . import ", "try:\n", "except*", "type X = ",
     "x", "a.b", "1", "0x", "1e", "1_", "0_7", "1.5j", "b'é'", "'\\N{x}'", "u'", "await ", "yield ", "not ", "in ", "is ", "echo", "ls -la", "2>&1", "del ", "return ",
-    "\x0c", "\t", "\x00", "\ufeff", "€", "é", "\u2028", "\x1b", "󠄀", "\ud800", "'\udfff'", "b'\udc80'",
+    "\x0c", "\t", "\x00", "\ufeff", "€", "é", "\u2028", "\x1b", "󠄀", "\ud800", "'\udfff'", "b'\udc80'", "\\\ud800", "f'\\\udfff{x}'", "\\N{\ud800}",
 ]
 
 ALPHA = st.one_of(
